@@ -281,6 +281,17 @@ def matched_rule(ctx, r):
     for name in ("rg::files", "rg::files_parallel"):
         f = facts.fn(name)
         r.ok("%s|listing" % name, "listing mode: matched means 'a haystack was listed'", nontrivial=False, fn=f)
+    fl = facts.fn("rg::files")
+    s0 = Sccp(fl, stop_blocks=loop_headers(fl)).run([(0, {})])
+    ls_ = [i for i, l in enumerate(fl.locals) if l.get("name") == "matched"]
+    inits = [(op_const(st["rv"].get("a", {})) or {}).get("val") for bb, j, st in fl.stmts()
+             if ls_ and st["k"] == "assign" and st["place"]["l"] == ls_[0] and not st["place"]["p"] and bb in s0.exec_blocks
+             and not any(bb in C.reach(fl, [h]) for h in loop_headers(fl))]
+    if inits == [0]:
+        r.ok("files|init", "rg::files: matched starts false (an empty listing exits with 1)", fn=fl)
+    else:
+        r.bad("files|init", "rg::files does not start with matched = false (%s): listing nothing would exit with 0" % inits, fn=fl,
+              construct="matched")
 
 
 def main_maps_pipe(facts):
@@ -298,6 +309,25 @@ def main_maps_pipe(facts):
         if any(c.path.endswith("_eprint") or "eprint" in c.path for c in m.calls() if c.bb in after):
             return False
     return True
+
+
+def own_error(e, c):
+    """Is the error whose kind() is tested the Err payload of call c itself?"""
+    for x in walk(e):
+        if x.k == "call" and x[1] == KIND and x[3]:
+            o = x[3][0]
+            while isinstance(o, X) and o.k in ("ref", "deref", "field", "dc", "cast"):
+                o = o[1]
+            if isinstance(o, X) and o.k == "phi":
+                alts = [a for a in o[2] if isinstance(a, X)]
+                return any(own_error(X(("call", KIND, None, [a])), c) for a in alts)
+            if isinstance(o, X) and o.k == "call":
+                if o[1] == c.path or (len(o) > 4 and getattr(o[4], "bb", None) == c.bb):
+                    return True
+                # Try::branch / join wrappers around the call
+                if o[1].endswith("Try::branch") or o[1].endswith("::join") or o[1].endswith("map_err"):
+                    return any(own_error(X(("call", KIND, None, [a])), c) for a in o[3])
+    return False
 
 
 def pipe_rule(ctx, r):
@@ -358,6 +388,20 @@ def pipe_rule(ctx, r):
             r.bad(label, "the BrokenPipe edge of %s still reports an error" % c.path, fn=f, loc=c.loc)
         else:
             r.ok(label, "Err ⇒ BrokenPipe tested first; pipe edge is quiet", fn=f)
+        # ... and any *other* write error is not swallowed: it reaches the error flag or is returned
+        silent = []
+        for bb, te, fe, e in sw:
+            # only the test on the error of this very call (err_message! carries pipe tests of its own for stderr)
+            if bb not in region or not own_error(e, c):
+                continue
+            after = C.reach(f, [fe[1]], stop_blocks=hdrs)
+            if not calls_in(f, after, SET_ERRORED) and not err_returns(f, after):
+                silent.append(bb)
+        if silent:
+            r.bad(label + "|other", "an error of %s that is not BrokenPipe is dropped without a diagnostic (neither the error flag nor "
+                  "an Err return is reached)" % c.path, fn=f, loc=c.loc, construct="pipe-other")
+        else:
+            r.ok(label + "|other", "an error other than BrokenPipe is reported or returned", fn=f)
     # (status) in the serial drivers the pipe edge must not fall back to "matched so far": the run either hands the
     # BrokenPipe error to main (whose chain test maps it to status 0) or returns Ok(true)
     for f, c, label in todo:
@@ -629,7 +673,7 @@ def run(ctx):
         status_rule(ctx, r)
     with ctx.rule("C15.MATCHED", "`matched` derives from the mode functions / has_match(); the shared flag's life cycle in search_parallel", floor=13, kind="FLOW") as r:
         matched_rule(ctx, r)
-    with ctx.rule("C15.PIPE", "every handled stdout-write error tests BrokenPipe first and stops quietly", floor=8, kind="GUARD") as r:
+    with ctx.rule("C15.PIPE", "every handled stdout-write error tests BrokenPipe first and stops quietly; other errors are reported", floor=12, kind="GUARD") as r:
         pipe_rule(ctx, r)
     with ctx.rule("C15.CONTINUE", "per-file errors set the error flag and continue", floor=3, kind="A3/MAYCALL") as r:
         continue_rule(ctx, r)
